@@ -75,6 +75,11 @@ def items(tier: str, seed: int) -> list[dict]:
     add(behaviour="fail:/b", unique=True)
     # a defect of the document (unusable path item) before / between / after healthy operations of a conforming API
     for doc in ee.BROKEN_DOCS:
+        if doc.startswith("hdr_example"):
+            # the defect sits in an explicit example: it is met where examples are used
+            for phases in (["examples"], ["examples", "coverage", "fuzzing"]):
+                add(doc=doc, phases=phases)
+            continue
         for phases in (["fuzzing"], ["examples", "coverage", "fuzzing"]):
             add(doc=doc, phases=phases)
         if tier != "quick" or doc == "unit2_broken_last":
